@@ -62,6 +62,9 @@ pub const FAMILIES: &[Family] = &[
     Family { name: "runs64", f: |i| [65, 66, 67, 65][(i / 64) % 4], body: "[65u8,66,67,65][(i/64)%4]" },
     Family { name: "run-then-1", f: |i| if i == 0 { 9 } else { 7 }, body: "if i==0 {9u8} else {7}" },
     Family { name: "runs255", f: |i| if i % 256 == 255 { 8 } else { 7 }, body: "if i%256==255 {8u8} else {7}" },
+    // two singletons in a long run: floor-normalised frequencies + the two minimum-1 bumps exceed the
+    // table total from 8193 bytes on (the over-sum correction of the normaliser)
+    Family { name: "two-singletons", f: |i| [9, 8, 7][i.min(2)], body: "[9u8,8,7][i.min(2)]" },
     // <= 16 distinct symbols (PACK boundaries 2/4/16) and just above
     Family { name: "pack2", f: |i| 3 + 10 * (i % 2) as u8, body: "3+10*(i%2) as u8" },
     Family { name: "pack3", f: |i| 3 + 10 * (i % 3) as u8, body: "3+10*(i%3) as u8" },
